@@ -502,6 +502,180 @@ func gen(r *vgen.Rng, tier string) []Case {
 			}
 			out = append(out, Case{Path: p.name, Events: evs})
 		}
+		// 3. deposits that share field values
+		n3 := 60
+		if tier == "thorough" {
+			n3 = 600
+		}
+		for k := 0; k < n3; k++ {
+			out = append(out, sharedCase(r, p.name, p.chain, cat))
+		}
+	}
+	for i := range out {
+		out[i] = normalise(out[i])
 	}
 	return out
+}
+
+// ---- deposits that share field values ---------------------------------------------------------------------
+// Deposit nonces are counted per destination domain, a block can be named by several retry events,
+// users send to the same recipient: the deposits of one range / retried transaction / retried block
+// may carry the same nonce (for different destinations), the same destination, the same resource,
+// the same recipient, the same calldata, or be byte-identical.  Each is a deposit of its own.
+
+func healthyFor(r *vgen.Rng, chain string, dest uint8) Dep {
+	if chain == "btc" {
+		return btcGood(r, dest)
+	}
+	d := healthy(r, chain, "")
+	d.Dest = dest
+	return d
+}
+
+// realDest: the destination a deposit names (BTC: what follows the '_', if it is a number).
+func realDest(chain string, d Dep) uint8 {
+	if chain != "btc" {
+		return d.Dest
+	}
+	if script, err := hex.DecodeString(d.Data); err == nil && len(script) >= 2 {
+		if m := regexp.MustCompile(`_([0-9]{1,3})$`).FindStringSubmatch(string(script[2:])); m != nil {
+			if v, err := strconv.ParseUint(m[1], 10, 8); err == nil {
+				return uint8(v)
+			}
+		}
+	}
+	return 2
+}
+
+// otherAmount: the same deposit with another first word (amount / token id / max fee) - same
+// recipient, same resource; ok=false where the kind has no such word.
+func otherAmount(r *vgen.Rng, d Dep) (Dep, bool) {
+	switch d.Kind {
+	case "erc20", "erc721", "sub", "generic":
+		cd, err := hex.DecodeString(d.Data)
+		if err != nil || len(cd) < 32 {
+			return d, false
+		}
+		w := r.BigBits(40)
+		if d.Kind != "generic" {
+			w = amount(r)
+		}
+		d.Data = hex.EncodeToString(setWord(cd, 0, w))
+		return d, true
+	}
+	return d, false
+}
+
+func sharedCase(r *vgen.Rng, path, chain string, cat []Dep) Case {
+	retry := path == "EvmRetryV1" || path == "SubRetry"
+	var free []uint64 // distinct nonces for the deposits that do not share one
+	for n := uint64(1); n <= 40; n++ {
+		free = append(free, n)
+	}
+	r.Shuffle(len(free), func(i, j int) { free[i], free[j] = free[j], free[i] })
+	fresh := func() uint64 { n := free[0]; free = free[1:]; return n }
+	status := func(d *Dep) {
+		if path == "EvmRetryV1" {
+			d.Status = vgen.Pick(r, []string{"", "", "", "pending", "failed", "executed", "storeerr"})
+		}
+	}
+	// the base range: 1..4 deposits, healthy or poisoned, pairwise distinct nonces
+	var ds []Dep
+	for i, n := 0, r.Range(1, 4); i < n; i++ {
+		var d Dep
+		if r.Chance(2, 5) {
+			d = vgen.Pick(r, cat)
+		} else {
+			d = healthy(r, chain, "")
+		}
+		d.Nonce = fresh()
+		status(&d)
+		ds = append(ds, d)
+	}
+	// 1..3 deposits that share something with a deposit x already there, put before or after x
+	for k, n := 0, r.Range(1, 3); k < n; k++ {
+		xi := r.Intn(len(ds))
+		if k == 0 && r.Chance(1, 2) { // half of the cases: x is the poisoned one, if there is one
+			for i, d := range ds {
+				_, okBtc := wfBtc(d)
+				if !(wfEvm(d) || wfSub(d) || okBtc) {
+					xi = i
+					break
+				}
+			}
+		}
+		x := ds[xi]
+		var y Dep
+		switch r.Intn(7) {
+		case 0, 1: // the same nonce for another destination
+			y = elsewhere(r, chain, x)
+			y.Nonce = x.Nonce
+			status(&y)
+		case 2: // the same destination and the same nonce, other bytes
+			y = healthyFor(r, chain, realDest(chain, x))
+			y.Nonce = x.Nonce
+			y.Status = x.Status
+		case 3: // the same bytes, another nonce (EVM, Substrate: possibly another destination)
+			y = x
+			y.Nonce = fresh()
+			if chain != "btc" && r.Bool() {
+				y.Dest = uint8(vgen.Pick(r, []int{2, 3, 4}))
+			}
+			status(&y)
+		case 4: // the same recipient and resource, another amount; the same or another nonce / destination
+			var ok bool
+			if y, ok = otherAmount(r, x); !ok {
+				y = x
+			}
+			switch r.Intn(3) {
+			case 0:
+				y.Nonce = fresh()
+				status(&y)
+			case 1:
+				if chain != "btc" {
+					y.Dest = x.Dest%3 + 2
+					status(&y)
+				}
+			}
+		case 5: // the same nonce, a poisoned deposit (named destination: the same or another)
+			y = vgen.Pick(r, cat)
+			y.Nonce = x.Nonce
+			if chain != "btc" && r.Bool() {
+				y.Dest = x.Dest
+			}
+			status(&y)
+		default: // byte-identical
+			y = x
+		}
+		at := xi
+		if r.Bool() {
+			at = xi + 1
+		}
+		if r.Chance(1, 4) {
+			at = r.Intn(len(ds) + 1)
+		}
+		ds = append(ds[:at], append([]Dep{y}, ds[at:]...)...)
+	}
+	// one range / block / retried transaction, or (retry paths) cut into 2..3 retried transactions /
+	// blocks; a retried transaction / block may be named by a second retry event of the range
+	evs := []Event{{Deps: ds}}
+	if retry && r.Chance(2, 3) {
+		evs = nil
+		cuts := r.Range(1, 2)
+		rest := ds
+		for c := 0; c < cuts && len(rest) > 0; c++ {
+			at := r.Range(0, len(rest))
+			evs = append(evs, Event{Deps: append([]Dep{}, rest[:at]...)})
+			rest = rest[at:]
+		}
+		evs = append(evs, Event{Deps: append([]Dep{}, rest...)})
+		if r.Chance(1, 3) {
+			e := evs[r.Intn(len(evs))]
+			evs = append(evs, Event{Deps: append([]Dep{}, e.Deps...)})
+		}
+		if r.Chance(1, 10) {
+			evs[r.Intn(len(evs))].Skip = true
+		}
+	}
+	return Case{Path: path, Events: evs}
 }
